@@ -27,6 +27,8 @@ class Run:
         self.evaluations = 0
         self.failures = []
         self.nontrivial = set()
+        self.distinct = set()
+        self.samples = []
         self.bound = ""
         self.max_failures = 3
 
@@ -42,18 +44,30 @@ class Run:
 
     def check(self, inp, ok, expected=None, got=None, clause=""):
         self.evaluations += 1
+        try:
+            key = json.dumps(inp, default=str, sort_keys=True)
+        except Exception:
+            key = repr(inp)
+        if key not in self.distinct:
+            self.distinct.add(key)
+            # non-trivial by rule: the input contains at least one non-empty list / string / mapping (not the empty collection)
+            if any(ch.isalnum() for ch in key):
+                self.nontrivial.add(key)
+            if len(self.samples) < 3 and len(key) < 400:
+                self.samples.append({"input": inp, "clause": clause, "ok": bool(ok)})
         if not ok:
             self.failures.append({"input": inp, "clause": clause, "expected": repr(expected)[:500],
                                   "observed": repr(got)[:500]})
 
     def result(self):
         return {"evaluations": self.evaluations, "failures": self.failures, "bound": self.bound,
-                "label": "bounded"}
+                "label": "bounded", "distinct_inputs": len(self.distinct), "distinct_nontrivial": len(self.nontrivial),
+                "samples": self.samples}
 
 
 def main():
     req = json.loads(sys.stdin.read())
-    for m in ("bounded.lod", "bounded.df", "bounded.agg", "bounded.vec", "bounded.misc"):
+    for m in ("bounded.lod", "bounded.df", "bounded.agg", "bounded.vec", "bounded.misc", "bounded.dtre"):
         try:
             importlib.import_module(m)
         except ModuleNotFoundError as e:
